@@ -487,3 +487,47 @@ prop(dict(
     assumptions=COMMON_ASSUME + ["real schedules are sampled by stress on 16 cores, not enumerated; all interleavings are enumerated on the model only",
                                  "the verif hook in NextSequenceNumber runs inside the critical section (after the change, before unlock)"],
 ))
+
+
+# ---------------------------------------------------------------- C06
+def rand_c06(seed, tier, cases=None):
+    rng = random.Random(seed * 7919 + 6)
+    out = []
+    for _ in range(400 if tier == "quick" else 8000):
+        mtu = rng.choice([64, 65, 80, 100, 576, 1200, 1500, rng.randint(64, 2000)])
+        ops = []
+        for j in range(rng.randint(1, 6)):
+            k = rng.random()
+            smp = rng.choice([[0, 0, 0, 0], [0, 0, 3, 192], [255, 255, 255, 255], [rng.randint(0, 255) for _ in range(4)]])
+            if k < 0.6:
+                ops.append(dict(op="packetize", len=rng.choice([1, mtu - 13, mtu - 12, mtu - 11, mtu - 20, mtu - 21, mtu - 19, 2 * (mtu - 12), rng.randint(1, 4 * mtu)]), salt=j + 1, samples=smp, n=0))
+            elif k < 0.75:
+                ops.append(dict(op="skip", len=0, salt=0, samples=smp, n=0))
+            elif k < 0.9:
+                ops.append(dict(op="pad", len=0, salt=0, samples=[0, 0, 0, 0], n=rng.randint(1, 3)))
+            else:
+                ops.append(dict(op="enable", len=0, salt=0, samples=[0, 0, 0, 0], n=rng.choice([0, 1, 5, 14, 15, 200])))
+        out.append(dict(fam="C06", mtu=mtu, pt=rng.randint(0, 127), ssrc=[rng.randint(0, 255) for _ in range(4)],
+                        payloader=rng.choice(["g711", "opus", "h264", "vp8", "g722", "vp8pid"]), seqstart=rng.choice([0, 65535, 65530, rng.randint(0, 65535)]),
+                        ts0=rng.choice([[255, 255, 255, 255], [255, 255, 250, 0], [rng.randint(0, 255) for _ in range(4)]]), abs0=rng.choice([0, 0, 1, 14, 15]),
+                        inst0=[rng.randint(0, 2000000000), rng.randint(0, 511)], ops=ops, depth=len(ops), **{"class": "rand"}))
+    return out
+
+
+prop(dict(
+    id="C06", fam="C06",
+    mc=[("PacketizerMC.tla", "PacketizerMC.cfg", {"thorough": {"Depth": "4"}})],
+    gen=[("PacketizerGen.tla", "PacketizerGen.cfg", {"thorough": {"Depth": "4", "Mtus": "{64, 100, 576, 1200, 1500}"}})],
+    rand=rand_c06,
+    trace=("PacketizerTrace.tla", "PacketizerTrace.cfg"),
+    shards={"quick": 2, "thorough": 14},
+    workers=16,
+    nontrivial=lambda c: any(o["op"] == "packetize" for o in c["ops"]),
+    mandatory=["d1_mtu64", "d2_mtu100", "d3_mtu1200", "d3_mtu1500", "rand"],
+    rule="TLC enumerates every call sequence up to Depth over nine operations (Packetize with payload lengths 1, budget-1, budget, budget+1, 3*budget+1 and sample counts "
+         "0/1/960/2^32-1, SkipSamples, GeneratePadding, EnableAbsSendTime) for each MTU; payloader (G711, G722, Opus, H264, VP8 with and without picture id), start sequence number "
+         "(incl. 65534/65535), start timestamp (incl. 2^32-1) and initial abs-send-time id rotate through covering rows; the send clock is injected; seeded random call sequences are added; "
+         "non-trivial = contains a Packetize call; distinct = distinct case records",
+    assumptions=COMMON_ASSUME + ["the packetizer clock and start timestamp are set through verif-tagged accessors",
+                                 "the MTU bound is demanded of a packet whose fragment respects the budget the packetizer gave the payloader (Opus ignores the budget by design)"],
+))
